@@ -79,6 +79,67 @@ theorem popitem_removes_smallest (s : PState K V) (hi : PInv s) (p : K × V) (re
   rw [hm] at this
   exact (List.pairwise_cons.1 this).1
 
+/-! the reference dict is a map: a deleted key is gone, `len` moves by one exactly when the key set changes -/
+/-- after `del m[k]` / `pop(k)` the key is absent (a sorted map holds a key at most once) -/
+theorem deleted_key_absent (m : List (K × V)) (k : K) (hs : SMap.Sorted m) : SMap.lookup (SMap.erase m k) k = none := by
+  induction m with
+  | nil => simp [SMap.lookup, SMap.erase]
+  | cons a m ih =>
+    obtain ⟨ak, av⟩ := a
+    have hs' := List.pairwise_cons.1 hs
+    simp only [SMap.erase]
+    by_cases h1 : ord ak = ord k
+    · simp only [h1, if_true]
+      simp only [SMap.lookup, List.find?_eq_none]
+      intro p hp
+      have := hs'.1 p hp
+      simp at this ⊢; omega
+    · have e : (ord ak == ord k) = false := by simp [h1]
+      simp only [h1, if_false, SMap.lookup, List.find?_cons, e]
+      exact ih hs'.2
+
+/-- `len` moves by exactly one when, and only when, the key set changes -/
+theorem len_after_assign (m : List (K × V)) (k : K) (v : V) (hs : SMap.Sorted m) :
+    (SMap.insert m k v).length = if (SMap.lookup m k).isSome then m.length else m.length + 1 := by
+  induction m with
+  | nil => simp [SMap.lookup, SMap.insert]
+  | cons a m ih =>
+    obtain ⟨ak, av⟩ := a
+    have hs' := List.pairwise_cons.1 hs
+    simp only [SMap.insert]
+    by_cases h1 : ord k < ord ak
+    · have e : (ord ak == ord k) = false := by simp; omega
+      have hn : SMap.lookup m k = none := by
+        simp only [SMap.lookup, List.find?_eq_none]
+        intro p hp; have := hs'.1 p hp; simp at this ⊢; omega
+      simp only [SMap.lookup] at hn
+      simp [h1, SMap.lookup, List.find?_cons, e, hn]
+    · by_cases h2 : ord k = ord ak
+      · have e : (ord ak == ord k) = true := by simp [h2]
+        simp [h1, h2, SMap.lookup, List.find?_cons]
+      · have e : (ord ak == ord k) = false := by simp; omega
+        simp only [h1, h2, if_false, List.length_cons, ih hs'.2, SMap.lookup, List.find?_cons, e]
+        split <;> rename_i hh <;> simp [hh]
+
+theorem len_after_delete (m : List (K × V)) (k : K) :
+    (SMap.erase m k).length = if (SMap.lookup m k).isSome then m.length - 1 else m.length := by
+  induction m with
+  | nil => simp [SMap.lookup, SMap.erase]
+  | cons a m ih =>
+    obtain ⟨ak, av⟩ := a
+    simp only [SMap.erase]
+    by_cases h1 : ord ak = ord k
+    · have e : (ord ak == ord k) = true := by simp [h1]
+      simp [h1, SMap.lookup, List.find?_cons]
+    · have e : (ord ak == ord k) = false := by simp [h1]
+      simp only [h1, if_false, List.length_cons, ih, SMap.lookup, List.find?_cons, e]
+      split
+      · rename_i hh
+        have : m.length ≠ 0 := by
+          intro h0; have := List.eq_nil_of_length_eq_zero h0; subst this; simp at hh
+        simp only [hh, if_true]; omega
+      · rename_i hh
+        simp [hh]
 /-- the entry list is strictly ascending, so keys are unique and `lookup` is well defined -/
 theorem abs_strictly_ascending (s : PState K V) (hi : PInv s) : SMap.Sorted (abs s) := abs_sorted s hi
 
